@@ -103,18 +103,13 @@ func staticInvariants(s *gtfs.Static, f *gen.Feed) (sig, detail string, kinds in
 					rv := make([]string, len(cols))
 					for k, c := range ci {
 						if c >= 0 && c < len(r) {
-							rv[k] = strings.TrimSpace(r[c])
+							rv[k] = r[c]
 						}
 					}
 					set[strings.Join(rv, "\x00")] = true
 				}
 			}
 			index[ik] = set
-		}
-		// white space at the edges of a cell is not significant here: a parser may or may not trim it, and the
-		// property speaks about which element an id names, not about how cells are normalised
-		for k := range vals {
-			vals[k] = strings.TrimSpace(vals[k])
 		}
 		return set[strings.Join(vals, "\x00")]
 	}
